@@ -1053,3 +1053,17 @@ Proof.
     destruct (Z.leb_spec 0 k); destruct (Z.ltb_spec k 0); cbn [andb]; try reflexivity; lia.
   - reflexivity.
 Qed.
+
+(* 8.7.2: a write through a primitive string goes to a temporary object; no later observation can see it *)
+Theorem primitive_writes_vanish : forall define keys call u st k v m n,
+  step_obj define keys call u st (OSetPrim k v) = Some (st, VUndef) /\
+  step_obj define keys call u st (OSetPrimMethod m) = Some (st, VUndef) /\
+  step_obj define keys call u st (OSetLenPrim n) = Some (st, VUndef).
+Proof. intros. repeat split. Qed.
+
+(* a missing argument is undefined: an empty argument list and an explicit undefined give the same call *)
+Theorem missing_argument_is_undefined : forall m r,
+  m <> MConcat -> call_model m r [] = call_model m r [AUndef] /\ call_spec m r [] = call_spec m r [AUndef].
+Proof.
+  intros m r H. destruct m; try congruence; split; reflexivity.
+Qed.
